@@ -269,7 +269,11 @@ def emit_param(p: J, ids: Ids, owner_id: str) -> str:
             s += f'<TABLE-KEY-SNREF SHORT-NAME={quoteattr(p["key"])}/>'
         else:
             s += f'<TABLE-KEY-REF ID-REF={quoteattr(p.get("key_id") or owner_id + "." + p["key"])}/>'
-    elif kind in ("DYNAMIC", "TABLE-ENTRY"):
+    elif kind == "TABLE-ENTRY":
+        tname, rname = p["row"]
+        s += _tag("TARGET", p.get("target", "KEY")) + \
+            f'<TABLE-ROW-REF ID-REF={quoteattr(ids.of("TAB", tname) + "." + rname)}/>'
+    elif kind == "DYNAMIC":
         pass
     return s + "</PARAM>"
 
